@@ -74,6 +74,7 @@ type Ctx struct {
 	fmodel   *fusionModel
 	sguard   *semiGuard
 	lfacts   *lexFacts
+	gavals   map[*ssa.Global]*aval
 }
 
 func shortPkg(path string) string {
